@@ -34,6 +34,10 @@ ACTIONS = {"self._start_up_actions": "startUpActions", "self._shut_down_actions"
 SVC_VERBS = ("stop", "start", "pause", "resume", "restart", "disable", "enable")
 APP_VERBS = ("run", "close", "install")
 STATE = "self.operating_state"
+# classes whose methods may be called unbound on an element of a collection: `Application.run(self.applications[a])`.
+# Not the interfaces: their enable() differs by class (the IP classes answer differently and say hello), so an unbound
+# `WiredNetworkInterface.enable(i)` is NOT `i.enable()` for the model and stays outside the fragment.
+UNBOUND_CLASSES = {"Application": "applications", "Service": "services"}
 RESETTING = "self.config.is_resetting"
 
 
@@ -206,6 +210,14 @@ def _loop(st: ast.For) -> str:
     it = _u(st.iter)
     meth = b.value.func.attr
     recv = _u(b.value.func.value)
+    call_args, call_kws = list(b.value.args), list(b.value.keywords)
+    unbound_of = None
+    if isinstance(b.value.func.value, ast.Name) and b.value.func.value.id in UNBOUND_CLASSES and call_args:
+        # `Class.method(obj, …)` is `obj.method(…)` resolved at `Class` (a subclass's override is bypassed). The model's verbs ARE
+        # the base classes' methods (`Application.run` opens the application, …), so the modelled effect is the same.
+        unbound_of = UNBOUND_CLASSES[b.value.func.value.id]
+        recv = _u(call_args[0])
+        call_args = call_args[1:]
     for coll in ("network_interfaces", "services", "applications"):
         forms = {}
         if isinstance(st.target, ast.Name):
@@ -216,14 +228,16 @@ def _loop(st: ast.For) -> str:
         elif isinstance(st.target, ast.Tuple) and len(st.target.elts) == 2 and all(isinstance(x, ast.Name) for x in st.target.elts):
             forms[f"self.{coll}.items()"] = [st.target.elts[1].id, f"self.{coll}[{st.target.elts[0].id}]"]
         if it in forms and recv in forms[it]:
+            if unbound_of is not None and unbound_of != coll:
+                raise Unsupported(f"unbound call of another collection's class in `{_u(b)[:80]}`")
             if coll == "network_interfaces":
                 if meth == "apply_timestep":
                     return ".skip"      # interfaces keep no modelled clock
-                if b.value.args or b.value.keywords:
+                if call_args or call_kws:
                     raise Unsupported(f"arguments in `{_u(b)}`")
                 if meth in ("enable", "disable"):
                     return ".nicsEnable" if meth == "enable" else ".nicsDisable"
-            if b.value.args or b.value.keywords:
+            if call_args or call_kws:
                 raise Unsupported(f"arguments in `{_u(b)}`")
             if coll == "services" and meth in SVC_VERBS:
                 return f"(.svcsEach .{meth})"
